@@ -495,7 +495,7 @@ Record urep (T : Tpred) (m : mem) (bl : nat) (blk : block) (bh : nat) (hblk : bl
   u_hlen : length hblk = (9 * hist_sz lb)%nat;
   u_ents : forall i, (i < length (hist lb))%nat -> ent_rep m hblk i (nth i (hist lb) dflt);
   u_own : NoDup (owned bl bh hblk (length (hist lb)));
-  u_tab : exists fp, T m (tcells blk) fp (ln lb) /\ (forall b, In b fp -> ~ In b (owned bl bh hblk (length (hist lb))))
+  u_tab : exists fp, T m (tcells blk) fp (ln lb) /\ (forall b, In b fp -> ~ In b (owned bl bh hblk (length (hist lb))) /\ (b < length m)%nat)
 }.
 
 Lemma in_log_blocks hblk i n b : (i < n)%nat -> In b (ent_blocks hblk i) -> In b (log_blocks hblk 0 n).
@@ -533,9 +533,9 @@ Proof.
   - rewrite mem_upd_other by assumption. exact Hh.
   - intros i Hi. apply (ent_rep_keeps m); [apply He; exact Hi|]. apply K. intro X.
     inversion Ho as [|? ? Hn _]. apply Hn. right. apply (in_log_blocks hblk i); assumption.
-  - exists fp. split; [|exact Hfp].
+  - exists fp. split; [|intros b Hb'; rewrite upd_length by exact Hbl; exact (Hfp b Hb')].
     rewrite (tcells_eq blk blk' L) by (intros j Hj; apply E; unfold L_hist_u; lia).
-    apply (TF m); [exact Ht|]. apply K. intro X. apply (Hfp bl X). left. reflexivity.
+    apply (TF m); [exact Ht|]. apply K. intro X. apply (proj1 (Hfp bl X)). left. reflexivity.
 Qed.
 Lemma set_hu_same lb : set_hu lb (hist_u lb) = lb.
 Proof. destruct lb; reflexivity. Qed.
